@@ -79,6 +79,7 @@ BOUNDS = {
                    "scores": "menu {-inf,0,1,2.5} in every way", "policies": "none, k-per-sample k=1,2, stub allowing every subset of the candidates (+ all ids, + non-candidates)"},
         "real": {"plates": "1..3", "scorers": ["RandomScorer (3-value answer menu per draw)", "SizeScorer"],
                  "n_chunks": "1..4 (RandomScorer at 3 plates: 1..3)", "orders": "all"},
+        "cli_names_and_layout": "2-3 plate screens also with plates named '1', '2', ... (a name that spells another plate's id) and the chunk files in one directory per chunk under one file name",
         "cli": {"plates": "1..3", "n_chunks": "1..P+1 (3 plates: 2 and 4)", "scorers": ["SizeScorer", "RandomScorer (<= 2 plates)"],
                 "orders": "all for <= 3 files, 3 orders for 4 files; k-per-sample policies on one order each"},
     },
@@ -138,7 +139,12 @@ class HarnessAssumption(Exception):
 
 
 # ------------------------------------------------------------------ screens
-def build_rows(sizes, variant, obs):
+def plate_name(j, names=None):
+    # "numeric": plates named "1", "2", ... - each name spells the ID of the next plate (ids follow the sorted names: 0, 1, ...)
+    return str(j + 1) if names == "numeric" else f"p{j}"
+
+
+def build_rows(sizes, variant, obs, names=None):
     rows = []
     g = 0
     for j, size in enumerate(sizes):
@@ -156,7 +162,7 @@ def build_rows(sizes, variant, obs):
                 t1, t2 = TPOOL[g % len(TPOOL)]
             else:
                 raise KeyError(variant)
-            rows.append((s, f"p{j}", (t1, t2), round(0.05 + 0.1 * g, 4), bool(obs[j])))
+            rows.append((s, plate_name(j, names), (t1, t2), round(0.05 + 0.1 * g, 4), bool(obs[j])))
             g += 1
     return rows
 
@@ -172,7 +178,7 @@ class Ctx:
     def __init__(self, spec):
         self.spec = spec
         sizes, variant, obs = spec["sizes"], spec["variant"], spec["obs"]
-        self.rows = build_rows(sizes, variant, obs)
+        self.rows = build_rows(sizes, variant, obs, spec.get("names"))
         self.screen = make_screen(self.rows, control=CTL)
         self.P = len(sizes)
         if not np.array_equal(np.asarray(self.screen.observations, float), np.array([r[3] for r in self.rows])):
@@ -185,7 +191,7 @@ class Ctx:
         self.plate_rows = {}
         pids = np.asarray(self.screen.plate_ids)
         for j in range(self.P):
-            idx = [i for i, r in enumerate(self.rows) if r[1] == f"p{j}"]
+            idx = [i for i, r in enumerate(self.rows) if r[1] == plate_name(j, spec.get("names"))]
             ids = {int(pids[i]) for i in idx}
             if len(ids) != 1:
                 raise HarnessAssumption("rows of one plate carry different plate ids (C01 territory)")
@@ -748,16 +754,21 @@ def _read_scores(fn):
         return [int(x) for x in f["plate_ids"][:]], [float(x) for x in f["scores"][:]]
 
 
-def cli_case(ctx, batch, n_chunks, scorer_name, d, col, orders_policies):
+def cli_case(ctx, batch, n_chunks, scorer_name, d, col, orders_policies, layout="flat"):
     """Drive both CLI mains for one (screen, batch, n_chunks, scorer).  ``orders_policies``:
     list of (order, policy desc).  Violations are reported; returns nothing."""
     from batchie.cli import calculate_scores, select_next_plate as select_cli
 
     data = os.path.join(d, "data.h5")
-    base = {"kind": "cli", "spec": ctx.spec, "batch": batch, "n_chunks": n_chunks, "scorer": scorer_name}
+    base = {"kind": "cli", "spec": ctx.spec, "batch": batch, "n_chunks": n_chunks, "scorer": scorer_name, "layout": layout}
     files, ids_all, score_of = [], Counter(), {}
     for ci in range(n_chunks):
-        out = os.path.join(d, f"scores{ci}.h5")
+        if layout == "dirs":
+            # one directory per chunk job, the same file name in each (how a workflow engine lays out task outputs)
+            os.makedirs(os.path.join(d, f"chunk_{ci}"), exist_ok=True)
+            out = os.path.join(d, f"chunk_{ci}", "scores.h5")
+        else:
+            out = os.path.join(d, f"scores{ci}.h5")
         if os.path.exists(out):
             os.unlink(out)
         argv = ["calculate_scores", "--data", data, "--thetas", os.path.join(d, "thetas.h5"),
@@ -875,6 +886,15 @@ def run_cli_item(item, col):
                             if P == 3 and not item.get("full") and n_chunks != 2:
                                 ops = [op for op in ops if op[1][0] == "none"]
                             cli_case(ctx, batch, n_chunks, scorer_name, d, col, ops)
+                # the same screen with plates named "1", "2", ... (a name that spells another plate's id) and one directory per chunk job
+                if P >= 2:
+                    ctx_n = Ctx({"sizes": sizes, "variant": "alt", "obs": list(obs), "names": "numeric"})
+                    ctx_n.screen.save_h5(os.path.join(d, "data.h5"))
+                    for batch in all_batches(ctx_n.all_ids):
+                        if len(batch or []) > 1 and P == 3 and not item.get("full"):
+                            continue
+                        cli_case(ctx_n, batch, 2, "SizeScorer", d, col, cli_orders_policies(2, "SizeScorer")[:3], layout="dirs")
+                    ctx.screen.save_h5(os.path.join(d, "data.h5"))
         # more candidates than the small enumeration has: chunk counts that do not divide the number of candidates, first
         # pick of a batch and later picks (the count of candidates changes with the batch)
         for P in item.get("wide", []):
@@ -990,7 +1010,7 @@ def replay(case, col):
     print("screen rows (sample, plate, treatments, observation, observed):")
     for r in ctx.rows:
         print("   ", r)
-    print(f"plate ids: {dict((f'p{j}', ctx.pid[j]) for j in range(ctx.P))}  batch={batch}  n_chunks={n_chunks}  candidates={ctx.candidates(batch)}")
+    print(f"plate ids: {dict((plate_name(j, ctx.spec.get('names')), ctx.pid[j]) for j in range(ctx.P))}  batch={batch}  n_chunks={n_chunks}  candidates={ctx.candidates(batch)}")
     if kind in ("cover", "select"):
         sl = floats(case["scores"])
         score_of = {ctx.pid[j]: float(sl[j]) for j in range(ctx.P)}
@@ -1039,7 +1059,7 @@ def replay(case, col):
                 ops = [([int(x) for x in case["order"]], case["policy"])]
             else:
                 ops = []
-            cli_case(ctx, batch, n_chunks, case["scorer"], d, col, ops)
+            cli_case(ctx, batch, n_chunks, case["scorer"], d, col, ops, layout=case.get("layout", "flat"))
         finally:
             shutil.rmtree(d, ignore_errors=True)
     else:
